@@ -110,7 +110,12 @@ def gen_case(rng, force=None):
             side = [a for a in r if a.name not in ("N", "CA", "C", "O", "OXT", "CB")]
             backbone_instead = len(res) >= 2 and sum(len(x) for x in res) >= 12 and rng.random() < 0.5
             if side and not backbone_instead:
-                drop = {a.name for a in side[-rng.randint(1, min(3, len(side))) :]}
+                if len(side) >= 2 and rng.random() < 0.3:
+                    # a single atom missing from the MIDDLE of the side chain (its outer neighbours are there)
+                    drop = {rng.choice(side[:-1]).name}
+                    feats["kind"] = "missing-middle"
+                else:
+                    drop = {a.name for a in side[-rng.randint(1, min(3, len(side))) :]}
                 res[ti] = [a for a in r if a.name not in drop]
             if backbone_instead:
                 # a missing BACKBONE atom: the carbonyl O of a residue that is not the last one is rebuilt from
